@@ -23,6 +23,7 @@ type c18Scenario struct {
 	FailAt     int        `json:"fail_keepalive_k,omitempty"`
 	OnTick     bool       `json:"end_on_a_tick,omitempty"`
 	RefuseDial bool       `json:"reconnection_refused,omitempty"`
+	Stalled    bool       `json:"peer_stops_reading,omitempty"` // the server stops reading (a sender and then the keepalive block in write) and later closes the stream
 	EndAfterNs int64      `json:"end_after_ns,omitempty"`
 	Ticks      int        `json:"observe_ticks"`
 	LatencyNs  int64      `json:"latency_ns"`
@@ -71,6 +72,10 @@ func runC18(e *Engine, g G, o RunOpt) RunInfo {
 		sc.EndAfterNs = int64(sc.Ticks) * sc.IntervalNs
 		sc.LatencyNs = 0
 		sc.RefuseDial = sc.Reconnect && g.Pct("reconnection-refused", 50)
+	}
+	if sc.End == "server-close" && !sc.OnTick && !sc.Busy && !sc.Block && !sc.Reconnect && !sc.TLS && !sc.Client.WebSocket && g.Pct("stalled-peer", 30) {
+		sc.Stalled = true
+		sc.LatencyNs = 0
 	}
 	e.Net.Latency = time.Duration(sc.LatencyNs)
 	interval := time.Duration(sc.IntervalNs)
@@ -153,6 +158,16 @@ func runC18(e *Engine, g G, o RunOpt) RunInfo {
 		cli.OnClose = func() { closedAt = e.Now() }
 		if sc.FailAt > 0 {
 			cli.FailKeepaliveAt = sc.FailAt
+		}
+		if sc.Stalled {
+			// the peer's window fills up: an application send blocks in write, and so does the
+			// next keepalive behind it
+			s.Conn.End.RecvWindow = 200
+			s.Conn.PauseReads = true
+			e.Go("stalled-sender", func() {
+				s.W.Client.SendRaw("<message id='big' to='peer@" + SimDomain + "'><body>" + strings.Repeat("x", 1000) + "</body></message>")
+			})
+			e.Probe("c18.peer_stops_reading")
 		}
 		if sc.Busy {
 			e.Go("busy", func() {
@@ -261,7 +276,7 @@ func runC18(e *Engine, g G, o RunOpt) RunInfo {
 		upTo = t0 + time.Duration(sc.FailAt)*interval
 	}
 	expect := 0
-	for i := 1; ; i++ {
+	for i := 1; !sc.Stalled; i++ {
 		at := t0 + time.Duration(i)*interval
 		if at > upTo || (sc.OnTick && at == upTo) {
 			// a keepalive due at the very instant the session ends may or may not be written
@@ -309,7 +324,14 @@ func runC18(e *Engine, g G, o RunOpt) RunInfo {
 		}
 		e.Probe("c18.keepalive_write_failed")
 	}
-	if sc.End != "none" && !sc.Reconnect {
+	if sc.Stalled && tEnd >= 0 {
+		// whatever is blocked in write stays blocked (nobody closes the socket); the end of the
+		// stream must still be reported, and not later than the configured timeout allows
+		if late := tEnd - tFault; late > time.Duration(sc.Client.ConnectTimeout)*time.Second+time.Second {
+			e.Violate("C18", "end-reported-late", "the server closed the stream at %v, the end was reported at %v", tFault, tEnd)
+		}
+	}
+	if sc.End != "none" && !sc.Reconnect && !sc.Stalled {
 		for _, lt := range live {
 			if !lt.Harness && strings.Contains(lt.Stack, "xmpp.keepalive(") {
 				e.Violate("C18", "keepalive-goroutine-left", "keepalive goroutine still alive 3 intervals after the session ended (%s)", lt.Header)
@@ -342,7 +364,7 @@ func runC18(e *Engine, g G, o RunOpt) RunInfo {
 	}
 	if expect > 0 {
 		e.Probe("c18.ticks_observed")
-	} else {
+	} else if !sc.Stalled {
 		info.Nontrivial = false
 	}
 	return info
